@@ -113,102 +113,96 @@ def check_fraction_parts(repo, rep):
            "; ".join(bad[:2]) + (": the displayed fraction differs from the stored value (e.g. the unit carried by rounding is lost)" if bad else ""), key="C13.R4@fraction-parts")
 
 
-def _decimal_sign_table(fd):
-    """Decision table of the sign handling of _format_decimal: for each combination of (value < 0, style == 1,
-    style >= 2) the magnitude that is formatted and whether parentheses are added."""
+def _fold_text_table(e, env=None):
+    """Value of a constant expression that builds a table of characters: literals, + of sequences, str / chr / ord / list /
+    tuple / range over folded values, ``"".join``, and comprehensions over a folded range or sequence (at most 4096 elements)."""
+    env = env or {}
+    if isinstance(e, ast.Constant):
+        return e.value
+    if isinstance(e, ast.Name) and e.id in env:
+        return env[e.id]
+    if isinstance(e, (ast.List, ast.Tuple)):
+        return [_fold_text_table(x, env) for x in e.elts]
+    if isinstance(e, ast.BinOp) and isinstance(e.op, ast.Add):
+        a, b = _fold_text_table(e.left, env), _fold_text_table(e.right, env)
+        if type(a) is type(b) and isinstance(a, (list, str, int)):
+            return a + b
+        raise AnalysisError("table expression: + of different kinds")
+    if isinstance(e, ast.Call) and isinstance(e.func, ast.Name) and e.func.id in ("str", "chr", "ord", "list", "tuple", "range") and not e.keywords:
+        args = [_fold_text_table(a, env) for a in e.args]
+        if e.func.id == "range":
+            if not all(isinstance(a, int) for a in args) or not 1 <= len(args) <= 3:
+                raise AnalysisError("table expression: range of non-integers")
+            r = range(*args)
+            if len(r) > 4096:
+                raise AnalysisError("table expression: range too long")
+            return list(r)
+        if len(args) != 1:
+            raise AnalysisError("table expression: call with several arguments")
+        a = args[0]
+        if e.func.id == "str" and isinstance(a, (int, str)):
+            return str(a)
+        if e.func.id == "chr" and isinstance(a, int) and 0 <= a < 0x110000:
+            return chr(a)
+        if e.func.id == "ord" and isinstance(a, str) and len(a) == 1:
+            return ord(a)
+        if e.func.id in ("list", "tuple") and isinstance(a, (list, str)):
+            return list(a)
+        raise AnalysisError("table expression: call outside the folded language")
+    if isinstance(e, ast.Call) and isinstance(e.func, ast.Attribute) and e.func.attr == "join" and len(e.args) == 1 and isinstance(_fold_text_table(e.func.value, env), str):
+        parts = _fold_text_table(e.args[0], env)
+        if isinstance(parts, list) and all(isinstance(x, str) for x in parts):
+            return _fold_text_table(e.func.value, env).join(parts)
+    if isinstance(e, (ast.ListComp, ast.GeneratorExp)) and len(e.generators) == 1 and not e.generators[0].ifs and isinstance(e.generators[0].target, ast.Name):
+        seq = _fold_text_table(e.generators[0].iter, env)
+        if isinstance(seq, (list, str)) and len(seq) <= 4096:
+            return [_fold_text_table(e.elt, {**env, e.generators[0].target.id: x}) for x in seq]
+    if isinstance(e, ast.Attribute) and U(e) in ("string.digits", "string.ascii_uppercase"):
+        return {"string.digits": "0123456789", "string.ascii_uppercase": "ABCDEFGHIJKLMNOPQRSTUVWXYZ"}[U(e)]
+    raise AnalysisError(f"table expression `{U(e)[:60]}` is outside the folded language")
+
+
+def _decimal_sign_table(repo, fd):
+    """Decision table of the sign handling of _format_decimal, read off its function summary: for a negative / non-negative
+    value and each negative style (0..3) every outcome formats the magnitude the style asks for (``-value`` when the style
+    drops the minus sign, the value itself otherwise) and is wrapped in parentheses exactly for styles >= 2 of a negative value."""
     import itertools
-
-    from ..symexec import Straight, bool_eval
-    from ..equiv import _Simp
-    import copy
-
-    p0 = fd.args.args[0].arg
-    sl = Straight(fd)
-    # the parenthesised return and the flag that selects it
-    par = [n for n in body_walk(fd) if isinstance(n, ast.Return) and isinstance(n.value, ast.JoinedStr) and U(n.value).replace(" ", "").startswith("f'({")]
-    if len(par) != 1 or not isinstance(par[0]._parent, ast.If):
-        # conditional expression form
-        par_ce = [n for n in body_walk(fd) if isinstance(n, ast.Return) and isinstance(n.value, ast.IfExp)]
-        if len(par_ce) != 1:
-            raise AnalysisError("_format_decimal: the parenthesised return not found")
-        flag_expr = sl.at(par_ce[0], par_ce[0].value.test)
-        body_is_paren = U(par_ce[0].value.body).replace(" ", "").startswith("f'({")
-        anchor = par_ce[0]
-    else:
-        flag_expr = sl.at(par[0]._parent, par[0]._parent.test)
-        body_is_paren = True
-        anchor = par[0]._parent
-    # the magnitude: the value of the first parameter when the digits are produced (first use in a formatting call)
-    uses = [c for c in body_walk(fd) if isinstance(c, ast.Call) and (last_attr(c.func) in ("sigfig", "is_integer", "int", "Decimal", "quantize", "round"))
-            and any(isinstance(x, ast.Name) and x.id == p0 for x in ast.walk(c))]
-    if not uses:
-        raise AnalysisError("_format_decimal: no formatting call on the value found")
-    st = uses[0]
-    while not isinstance(st, ast.stmt):
-        st = st._parent
-    mag = sl.at(st, ast.Name(id=p0, ctx=ast.Load()))
     import re as _re
 
-    class _Asg(dict):
-        """Truth of the atoms for one (value < 0, style) pair: comparisons of the style with a constant are computed."""
+    from ..funsum import Summarizer, decide
 
-        def __init__(self, lt0, style):
-            super().__init__()
-            self.lt0, self.style = lt0, style
-
-        def _val(self, k):
-            t = k.replace(" ", "")
-            if t in (f"{p0}<0", f"0>{p0}"):
-                return self.lt0
-            if t in (f"{p0}>=0", f"0<={p0}"):
-                return not self.lt0
-            m_ = _re.fullmatch(r"number_format\.negative_style(==|!=|>=|<=|>|<)(\d+)", t)
-            if m_:
-                c = int(m_.group(2))
-                return {"==": self.style == c, "!=": self.style != c, ">=": self.style >= c, "<=": self.style <= c, ">": self.style > c, "<": self.style < c}[m_.group(1)]
-            m_ = _re.fullmatch(r"number_format\.negative_style(in|notin)\(([\d,]+)\)", t)
-            if m_:
-                members = {int(x) for x in m_.group(2).split(",") if x}
-                return (self.style in members) == (m_.group(1) == "in")
-            return None
-
-        def get(self, k, d=None):
-            v = self._val(k)
-            return d if v is None else v
-
-        def __contains__(self, k):
-            return self._val(k) is not None
-
-        def __getitem__(self, k):
-            v = self._val(k)
-            if v is None:
-                raise KeyError(k)
-            return v
-
-    from ..symexec import bool_atoms
-    probe = _Asg(False, 0)
-    extra = set()
-    for e_ in [flag_expr] + [n.test for n in ast.walk(mag) if isinstance(n, ast.IfExp)]:
-        extra |= {a_ for a_ in bool_atoms(e_) if probe._val(a_) is None}
-    extra = sorted(extra)
-    if len(extra) > 4:
-        raise AnalysisError(f"_format_decimal: sign handling depends on too many other facts: {extra}")
+    p0 = fd.args.args[0].arg
+    fmt = fd.args.args[1].arg
+    paths = Summarizer(consts=repo.consts).summarize(fd)
+    enums = {}
+    for c in repo.tree("constants.py").body:
+        if isinstance(c, ast.ClassDef) and any(U(b).split(".")[-1] in ("IntEnum", "IntFlag") for b in c.bases):
+            for k, v in repo.enum_members("constants.py", c.name).items():
+                if isinstance(v, int):
+                    enums[f"{c.name}.{k}"] = v
     for lt0, style in itertools.product([False, True], [0, 1, 2, 3]):
-      for evals in itertools.product([False, True], repeat=len(extra)):
-        asg = _Asg(lt0, style)
-        fixed = dict(zip(extra, evals))
-        asg._val = (lambda base, fx: (lambda k: fx[k] if k in fx else base(k)))(asg._val, fixed)
-        m_ast = _Simp(asg).visit(copy.deepcopy(mag))
-        m = U(m_ast).replace(" ", "")
-        f = bool_eval(flag_expr, asg)
-        if any(isinstance(n, ast.IfExp) for n in ast.walk(m_ast)) or f is None:
-            raise AnalysisError(f"_format_decimal: sign handling not decidable: `{m}` / `{U(flag_expr)}`")
+        sc = dict(enums)
+        sc.update({f"{p0} < 0": lt0, f"0 > {p0}": lt0, f"{p0} >= 0": not lt0, f"0 <= {p0}": not lt0, f"{p0} is None": False, f"{fmt}.negative_style": style})
+        outs = decide(paths, sc, limit=10)
         neg = lt0 and style >= 1
-        want_m = (f"-{p0}", f"abs({p0})") if neg else (p0, f"abs({p0})" if not lt0 else p0)
         want_paren = lt0 and style >= 2
-        got_paren = f if body_is_paren else (not f)
-        if m not in want_m or got_paren != want_paren:
-            return False, f"with value<0={lt0}, negative_style={style}" + (f" and {fixed}" if fixed else "") + f" the digits are those of `{m}` and parentheses={got_paren}"
+        for fx, kind, text, _p in outs:
+            if kind != "return" or text is None:
+                return False, f"with value<0={lt0}, negative_style={style} the function ends by {kind}"
+            flat = text.replace(" ", "")
+            got_paren = flat.startswith("cat('(") and (flat.endswith(")')") or flat.endswith("%)')"))
+            stray_paren = flat.startswith("cat('(") != got_paren
+            t2 = flat.replace(f"abs({p0})", "MAG")
+            uses = [m_.start() for m_ in _re.finditer(r"(?<![\w.])" + _re.escape(p0) + r"(?![\w])", t2)]
+            minus = [u for u in uses if u > 0 and t2[u - 1] == "-"]
+            if neg:
+                mag_ok = len(minus) == len(uses)
+            else:
+                mag_ok = not minus
+            if not mag_ok or got_paren != want_paren or stray_paren:
+                shown = {k: v for k, v in fx.items() if not k.startswith("__exc")}
+                return False, (f"with value<0={lt0}, negative_style={style}" + (f" and {shown}" if shown else "")
+                               + f" the digits are those of `{'-' + p0 if minus else p0}` and parentheses={got_paren}: `{text[:100]}`")
     return True, ""
 
 
@@ -265,9 +259,35 @@ def run(repo, rep, tier):
     rep.ob("C13.R1", fa, "format_archive stores exactly the allowed parameters of the type plus the mapped format type", ok, "", key="C13.R1@format_archive")
     # Formatting defaults relevant to decimals
     post = repo.func("cell.py", "Formatting.__post_init__")
-    s = U(post).replace(" ", "").replace("\n", "")
-    ok = "ifself.decimal_placesisNone:ifself.type==FormattingType.CURRENCY:self.decimal_places=2else:self.decimal_places=DECIMAL_PLACES_AUTO" in s
-    rep.ob("C13.R1", post, "decimal places default: 2 for currency, automatic otherwise", ok, "", key="C13.R1@defaults")
+    from ..funsum import Summarizer as _Summ, simplify as _simplify
+    why = ""
+    n_def = 0
+    IS_CUR = "self.type == FormattingType.CURRENCY"
+    for pth in _Summ(consts=repo.consts).summarize(post):
+        if pth.kind == "raise":
+            continue
+        facts = {U(c_): o_ for c_, o_ in pth.conds}
+        unset = facts.get("self.decimal_places is None")
+        if unset is None and "self.decimal_places is not None" in facts:
+            unset = not facts["self.decimal_places is not None"]
+        stored = [v_ for k_, v_, _n in pth.effects if k_ == "self.decimal_places"]
+        if unset is None:
+            why = why or "a path that does not ask whether decimal_places was given"
+            continue
+        if not unset:
+            if stored:
+                why = why or "decimal_places given by the caller is overwritten"
+            continue
+        for cur in (True, False):
+            if facts.get(IS_CUR, cur) != cur:
+                continue
+            got = U(_simplify(stored[-1], {IS_CUR: cur, "FormattingType.CURRENCY == self.type": cur})) if stored else None
+            want = ("2",) if cur else ("DECIMAL_PLACES_AUTO", str(repo.consts.get("DECIMAL_PLACES_AUTO")))
+            n_def += 1
+            if got not in want:
+                why = why or f"with decimal_places not given and currency={cur} the default becomes `{got}` instead of {want[0]}"
+    ok = not why and n_def >= 2
+    rep.ob("C13.R1", post, "decimal places default: 2 for currency, automatic otherwise", ok, why, key="C13.R1@defaults")
     # dispatch of the renderer per format type
     cf = repo.func("cell.py", "Cell._custom_format")
     # the part of the function that chooses the renderer is summarised with the format object left symbolic, and
@@ -352,7 +372,7 @@ def run(repo, rep, tier):
         rep.ob("C13.R2", f, f"{f.name}: no positional strip of the formatted text", not strips,
                "" if not strips else f"{[U(x) for x in strips]} removes a character by position: with negative styles that print no minus sign it removes a digit or a parenthesis",
                key=f"C13.R2@{f.name}:strip")
-    ok, detail = _decimal_sign_table(fd)
+    ok, detail = _decimal_sign_table(repo, fd)
     rep.ob("C13.R2", fd, "_format_decimal: style 1 drops the sign, styles >= 2 wrap the magnitude in parentheses, otherwise the minus sign stays", ok,
            "" if ok else detail + ": negative styles are decorated differently: sign or magnitude can change", key="C13.R2@negative-styles")
     from .. import numfmt as _nf
@@ -455,7 +475,11 @@ def run(repo, rep, tier):
         ps = [x for x in fb_probs if x[0] == cat]
         rep.ob("C13.R4", ps[0][1] if ps else fb, f"{title} ({n_fb} scenarios)", not ps, "" if not ps else ps[0][2] + (f" (and {len(ps) - 1} more scenarios)" if len(ps) > 1 else ""), key=key)
     tbl = repo.module_assign("cell.py", "INT_TO_BASE_CHAR")
-    ok = U(tbl).replace(" ", "") == "[str(x)forxinrange(10)]+[chr(x)forxinrange(ord('A'),ord('Z')+1)]"
+    try:
+        digits = list(_fold_text_table(tbl))
+    except AnalysisError:
+        digits = None
+    ok = digits == list("0123456789ABCDEFGHIJKLMNOPQRSTUVWXYZ")
     rep.ob("C13.R4", tbl, "digit table is 0-9 then A-Z (36 digits)", ok, "", key="C13.R4@digit-table")
     ff, n_ff, ff_probs = numfmt.check_format_fraction(repo)
     hi = [x for x in ff_probs if "digit count" in x[1]]
@@ -470,6 +494,14 @@ def run(repo, rep, tier):
 
 
 VARIANTS = [
+    T("defaults-conditional-expression", "cell.py", '            if self.type == FormattingType.CURRENCY:\n                self.decimal_places = 2\n            else:\n                self.decimal_places = DECIMAL_PLACES_AUTO\n', "            self.decimal_places = 2 if self.type == FormattingType.CURRENCY else DECIMAL_PLACES_AUTO\n"),
+    M("defaults-conditional-expression-swapped", "cell.py", '            if self.type == FormattingType.CURRENCY:\n                self.decimal_places = 2\n            else:\n                self.decimal_places = DECIMAL_PLACES_AUTO\n', "            self.decimal_places = DECIMAL_PLACES_AUTO if self.type == FormattingType.CURRENCY else 2\n", "C13.R1"),
+    T("digit-table-as-text", "cell.py", 'INT_TO_BASE_CHAR = [str(x) for x in range(10)] + [chr(x) for x in range(ord("A"), ord("Z") + 1)]', 'INT_TO_BASE_CHAR = list("0123456789ABCDEFGHIJKLMNOPQRSTUVWXYZ")'),
+    M("digit-table-lower-case", "cell.py", 'INT_TO_BASE_CHAR = [str(x) for x in range(10)] + [chr(x) for x in range(ord("A"), ord("Z") + 1)]', 'INT_TO_BASE_CHAR = list("0123456789abcdefghijklmnopqrstuvwxyz")', "C13.R4"),
+    T("twos-complement-format-specs", "cell.py", '        return bin(twos_complement_dec)[2:].rjust(num_bits, "1")\n    if base == 8:\n        return oct(twos_complement_dec)[2:]\n    return hex(twos_complement_dec)[2:].upper()\n', '        return f"{twos_complement_dec:b}".rjust(num_bits, "1")\n    if base == 8:\n        return f"{twos_complement_dec:o}"\n    return f"{twos_complement_dec:X}"\n'),
+    M("twos-complement-format-spec-lower-hex", "cell.py", '        return bin(twos_complement_dec)[2:].rjust(num_bits, "1")\n    if base == 8:\n        return oct(twos_complement_dec)[2:]\n    return hex(twos_complement_dec)[2:].upper()\n', '        return f"{twos_complement_dec:b}".rjust(num_bits, "1")\n    if base == 8:\n        return f"{twos_complement_dec:o}"\n    return f"{twos_complement_dec:x}"\n', "C13.R4"),
+    T("decimal-sign-nested-enum", "cell.py", '    if value < 0 and number_format.negative_style == 1:\n        accounting_style = False\n        value = -value\n    elif value < 0 and number_format.negative_style >= 2:\n        accounting_style = True\n        value = -value\n    else:\n        accounting_style = False\n', '    accounting_style = False\n    if value < 0:\n        negative_style = number_format.negative_style\n        if negative_style == NegativeNumberStyle.RED:\n            value = -value\n        elif negative_style >= NegativeNumberStyle.PARENTHESES:\n            accounting_style = True\n            value = -value\n'),
+    M("decimal-sign-nested-enum-parentheses-from-3", "cell.py", '    if value < 0 and number_format.negative_style == 1:\n        accounting_style = False\n        value = -value\n    elif value < 0 and number_format.negative_style >= 2:\n        accounting_style = True\n        value = -value\n    else:\n        accounting_style = False\n', '    accounting_style = False\n    if value < 0:\n        negative_style = number_format.negative_style\n        if negative_style == NegativeNumberStyle.RED:\n            value = -value\n        elif negative_style >= NegativeNumberStyle.RED_AND_PARENTHESES:\n            accounting_style = True\n            value = -value\n', "C13.R2"),
     M("rating-clamped-to-five", "cell.py", "            return STAR_RATING_VALUE * int(self._d128)", "            return STAR_RATING_VALUE * max(0, min(int(self._d128), 5))", "C13.R1"),
     M("decimals-from-raw-float", "cell.py", """            formatted_value = sigfig(value, MAX_SIGNIFICANT_DIGITS, type=str, warn=False)
             formatted_value = sigfig(
